@@ -1193,7 +1193,23 @@ class CallMixin(ExprMixin):
             else:
                 if not (isinstance(node.elt, ast.Name) and node.elt.id == var):
                     raise UnsupportedError("filtered comprehension must yield the loop variable")
-                cond = lambda idx: z3.And([O.truth(body_at(idx, c)) for c in g.ifs])
+                # The filter is evaluated once on a generic element src[qg]; facts it produces (ensures of pure total contracts called in
+                # the filter, well-formedness schemas) are instances of statements valid for every index and are generalised over qg.
+                # Without this the definition of a pure method applied to the bound element was lost (sound, but nothing could be
+                # proved about the filtered list).  If a fact cannot be generalised the old behaviour is kept.
+                gi = z3.Int(V.fresh_name("qg"))
+                mark = V.fresh_mark()
+                local = []
+                cg = None
+                try:
+                    cg = z3.And([O.truth(SpecEval(self, s, s, {var: V.list_get(src, gi)}, local).ev(self.pure_expr(c, s))) for c in g.ifs])
+                    facts.extend(generalize_facts(local, [gi], mark, "the comprehension filter"))
+                except SpecError:
+                    cg = None
+                if cg is not None:
+                    cond = lambda idx: z3.substitute(cg, (gi, idx if z3.is_expr(idx) else z3.IntVal(idx)))
+                else:
+                    cond = lambda idx: z3.And([O.truth(body_at(idx, c)) for c in g.ifs])
                 out = self.filtered_list(src, cond, s)
                 s.assume(*facts)
                 yield out, s
